@@ -50,6 +50,14 @@ pub struct Spec {
     pub entry: Option<u32>,
     /// (st_info, st_shndx) of the symbol `___exit` (None: H'12 = global function, section 1)
     pub exit_attr: Option<(u8, u16)>,
+    /// where the two header tables lie in the file.  0: program headers directly behind the ELF header, section
+    /// headers last (what GNU ld writes); 1: a 28-byte gap between the ELF header and the program headers;
+    /// 2: program headers at the very end of the file, behind the section headers; 3: one section-header-sized
+    /// block of padding behind the section header table
+    pub table_layout: u32,
+    /// name of the string table that `.symtab` links to (None: `.strtab`); with Some(..) the file also has a decoy
+    /// section called `.strtab` (a string table that does not hold the symbol names)
+    pub symstr_name: Option<String>,
 }
 
 fn be16(v: &mut Vec<u8>, x: u16) {
@@ -112,8 +120,8 @@ impl Spec {
             phs.insert(p, Ph::Other(*ty, *va, *ms));
         }
         // ---- layout: header, phdrs, segment contents (file_order), section contents, shdrs
-        let phoff = 52u32;
-        let mut off = phoff + 32 * nph as u32;
+        let mut phoff = if self.table_layout == 1 { 80u32 } else { 52u32 };
+        let mut off = if self.table_layout == 2 { 52 } else { phoff + 32 * nph as u32 };
         off = (off + 15) & !15;
         let mut seg_off = vec![0u32; self.segs.len()];
         for (i, &k) in self.file_order.iter().enumerate() {
@@ -128,7 +136,8 @@ impl Spec {
         }
         off = (off + 3) & !3;
         // section contents
-        let names = [".shstrtab", ".got", ".stack", ".symtab", ".strtab"];
+        let symstr = self.symstr_name.clone().unwrap_or_else(|| ".strtab".to_string());
+        let names = [".shstrtab", ".got", ".stack", ".symtab", symstr.as_str()];
         // section list: index 0 = NULL, then named sections in `section_order` with fillers interleaved
         let mut sect_names: Vec<String> = vec![String::new()];
         let mut filler_left = self.fillers;
@@ -142,6 +151,9 @@ impl Spec {
         while filler_left > 0 {
             sect_names.push(format!(".fill{}", filler_left));
             filler_left -= 1;
+        }
+        if self.symstr_name.is_some() {
+            sect_names.insert(1, ".strtab".to_string()); // the decoy comes first in the table
         }
         // .shstrtab
         let mut shstr: Vec<u8> = vec![0];
@@ -198,6 +210,9 @@ impl Spec {
         off = (off + 3) & !3;
         let shoff = off;
         let shnum = sect_names.len();
+        if self.table_layout == 2 {
+            phoff = shoff + 40 * shnum as u32;
+        }
         let idx_of = |n: &str| sect_names.iter().position(|x| x == n).unwrap_or(0) as u32;
         // ---- ELF header
         f.extend([0x7f, b'E', b'L', b'F', 1, 2, 1, 0, 0, 0, 0, 0, 0, 0, 0, 0]);
@@ -215,6 +230,8 @@ impl Spec {
         be16(&mut f, shnum as u16);
         be16(&mut f, idx_of(".shstrtab") as u16);
         // ---- program headers
+        let head = f;
+        let mut f: Vec<u8> = Vec::new();
         for ph in phs.iter() {
             match ph {
                 Ph::Load(k) => {
@@ -240,6 +257,8 @@ impl Spec {
                 }
             }
         }
+        let phb = f;
+        let mut f = head;
         // ---- contents
         let put = |f: &mut Vec<u8>, at: u32, data: &[u8]| {
             if f.len() < at as usize + data.len() {
@@ -247,6 +266,9 @@ impl Spec {
             }
             f[at as usize..at as usize + data.len()].copy_from_slice(data);
         };
+        if self.table_layout != 2 {
+            put(&mut f, phoff, &phb);
+        }
         for k in 0..self.segs.len() {
             let d = self.seg_data(k);
             put(&mut f, seg_off[k], &d);
@@ -275,8 +297,10 @@ impl Spec {
                 },
                 // MES convention: the .stack section's address field carries the stack size
                 ".stack" => (8, self.stack_size, 0, 0, 0, 0),
-                ".symtab" => (2, 0, symtab_off, symtab.len() as u32, idx_of(".strtab"), 16),
-                ".strtab" => (3, 0, strtab_off, strtab.len() as u32, 0, 0),
+                ".symtab" => (2, 0, symtab_off, symtab.len() as u32, idx_of(symstr.as_str()), 16),
+                x if x == symstr => (3, 0, strtab_off, strtab.len() as u32, 0, 0),
+                // decoy `.strtab` (only with symstr_name): a string table that holds the section names
+                ".strtab" => (3, 0, shstr_off, shstr.len() as u32, 0, 0),
                 _ => (1, 0x10 * i as u32, shstr_off, 0, 0, 0),
             };
             be32(&mut sh, name_idx[i]);
@@ -291,6 +315,13 @@ impl Spec {
             be32(&mut sh, entsize);
         }
         put(&mut f, shoff, &sh);
+        if self.table_layout == 2 {
+            put(&mut f, phoff, &phb);
+        }
+        if self.table_layout == 3 {
+            let at = f.len() as u32;
+            put(&mut f, at, &[0xEE; 40]);
+        }
         f
     }
 
@@ -305,6 +336,8 @@ impl Spec {
             "aligns": self.aligns,
             "entry": self.entry,
             "exit_attr": self.exit_attr.map(|x| json!([x.0, x.1])),
+            "table_layout": self.table_layout,
+            "symstr_name": self.symstr_name,
             "nonload": self.nonload.iter().map(|x| json!([x.0, x.1, x.2, x.3])).collect::<Vec<_>>(),
             "file_order": self.file_order,
             "got": self.got.as_ref().map(|(a, e)| json!([a, e])),
@@ -332,6 +365,8 @@ impl Spec {
             seed: u(&v["seed"])?,
             aligns: v["aligns"].as_array().map(|a| a.iter().map(|x| u(x).unwrap_or(4)).collect()).unwrap_or_default(),
             entry: v["entry"].as_u64().map(|y| y as u32),
+            table_layout: v["table_layout"].as_u64().unwrap_or(0) as u32,
+            symstr_name: v["symstr_name"].as_str().map(|x| x.to_string()),
             exit_attr: v["exit_attr"].as_array().map(|a| (a[0].as_u64().unwrap_or(0x12) as u8, a[1].as_u64().unwrap_or(1) as u16)),
             paddrs: v["paddrs"].as_array().map(|a| a.iter().map(|x| x.as_u64().map(|y| y as u32)).collect()).unwrap_or_default(),
             file_pads: v["file_pads"].as_array().map(|a| a.iter().map(|x| u(x).unwrap_or(0)).collect()).unwrap_or_default(),
@@ -362,6 +397,8 @@ pub fn default_spec() -> Spec {
         aligns: Vec::new(),
         entry: None,
         exit_attr: None,
+        table_layout: 0,
+        symstr_name: None,
     }
 }
 
@@ -757,6 +794,24 @@ pub fn specs(tier: Tier) -> Vec<Spec> {
             let mut sp = d.clone();
             sp.exit_attr = Some((info, shndx));
             out.push(sp);
+        }
+    }
+    // ---- factor: where the header tables lie in the file (e_phoff / e_shoff are what locates them) x section orders,
+    //      and the name of the string table `.symtab` links to (sh_link is what locates it)
+    for tl in 0..4u32 {
+        for (oi, order) in [vec![0usize, 1, 2, 3, 4], vec![4, 3, 2, 1, 0], vec![3, 0, 4, 2, 1]].into_iter().enumerate() {
+            for nm in [None, Some(".dynstr"), Some(".strtab2")] {
+                if tl == 0 && nm.is_none() {
+                    continue;
+                }
+                let mut sp = d.clone();
+                sp.table_layout = tl;
+                sp.section_order = order.clone();
+                sp.symstr_name = nm.map(|x| x.to_string());
+                sp.fillers = oi;
+                sp.nonload = if oi == 1 { vec![(1, 4, 0, 0)] } else { vec![] };
+                out.push(sp);
+            }
         }
     }
     // ---- factor: non-load program headers in every position (incl. last), 0-2 of them; p_type values whose low
